@@ -38,6 +38,7 @@ std::string DescribeChainOp(const Op& op)
     case OP_FLUSH: snprintf(b, sizeof b, "flush(mode=%ld)", (long)op.arg(0)); break;
     case OP_CLOCK: snprintf(b, sizeof b, "clock += %lds", (long)op.arg(0)); break;
     case OP_CHECK_UTXO: snprintf(b, sizeof b, "compare UTXO set with model"); break;
+    case OP_REORG: snprintf(b, sizeof b, "reorg(depth=%ld, extra=%ld, ntx=%ld, txseed=%ld, deliver_order=%ld)", (long)op.arg(0), (long)op.arg(1), (long)op.arg(2), (long)op.arg(3), (long)op.arg(4)); break;
     default: snprintf(b, sizeof b, "?");
     }
     return b;
@@ -61,6 +62,7 @@ Plan GenChainPlan(uint64_t seed, Tier tier, const std::string& bias)
     w[OP_FLUSH] = 4;
     w[OP_RESTART] = 2;
     w[OP_CHECK_UTXO] = 2;
+    w[OP_REORG] = 4;
     int deliver_now_pct = 70;
     int fork_pct = 25;
     int max_tx = 4;
@@ -100,6 +102,7 @@ Plan GenChainPlan(uint64_t seed, Tier tier, const std::string& bias)
         w[OP_RECONSIDER] = 4;
         w[OP_FLUSH] = 10;
         w[OP_CHECK_UTXO] = 0;
+        w[OP_REORG] = 12;
         max_tx = 6;
         p.knobs["on_disk"] = rng.chance(2, 3);
     } else {
@@ -128,6 +131,7 @@ Plan GenChainPlan(uint64_t seed, Tier tier, const std::string& bias)
         case OP_FLUSH: op.a = {(int64_t)rng.below(4)}; break;
         case OP_CLOCK: op.a = {(int64_t)rng.skewed(1, 7200)}; break;
         case OP_CHECK_UTXO: break;
+        case OP_REORG: op.a = {(int64_t)rng.skewed(1, 6), (int64_t)rng.range(1, 2), (int64_t)rng.range(0, max_tx), (int64_t)(rng.next() >> 16), (int64_t)rng.below(3)}; break;
         }
         p.ops.push_back(op);
     }
@@ -149,8 +153,10 @@ void ChainSim::StartNode()
     o.mempool_check_ratio = 0;
     o.check_blocks = 0;
     o.check_level = 4;
+    if (tweak_opts) tweak_opts(o);
     node = std::make_unique<SimNode>(o);
     if (!node->Start()) ctx.failf("node-start-failed", "%s", node->last_error.c_str());
+    if (on_node_started) on_node_started();
     ref = std::make_unique<RefChain>(node->params->GenesisBlock());
     delivered.assign(1, 1);
     header_given.assign(1, 1);
@@ -520,153 +526,188 @@ void ChainSim::CheckAll(const char* where)
     ctx.fingerprint(mix64(mix64(tip.GetUint64(0), mi), ref->blocks.size()));
 }
 
-void ChainSim::Run()
+void ChainSim::Setup()
 {
     StartNode();
     MineBase((int)std::clamp<int64_t>(ctx.knob("base", 101), 1, 400));
     CheckAll("after base chain");
+    start_time = now;
+}
+
+void ChainSim::ExecOp(const Op& op)
+{
     const bool on_disk = ctx.knob("on_disk", 0) != 0;
-    int64_t start_time = now;
-    int reorgs = 0;
-    for (const Op& op : ctx.plan.ops) {
-        int n = (int)ref->blocks.size();
-        auto sel = [&](size_t sel_arg, size_t idx_arg) {
-            if (op.arg(sel_arg)) return (int)op.mod(idx_arg, n);
-            return n - 1 - (int)op.mod(idx_arg, std::min(n, 8));
-        };
-        uint256 tip_before = node->TipHash();
-        int tipidx_before = TipIdx();
-        switch (op.kind) {
-        case OP_MINE: {
-            int parent = sel(0, 1);
-            if (!op.arg(0)) {
-                // "recent": prefer the node's current tip most of the time so that chains grow
-                int k = (int)op.mod(1, 4);
-                if (k <= 1 && tipidx_before >= 0) parent = tipidx_before;
-            }
-            int idx = MineOn(parent, (int)std::clamp<int64_t>(op.arg(2), 0, 12), (uint64_t)op.arg(3), (int)op.mod(4, D_NDEFECTS), (int)op.mod(5, B_NBOUNDARY), (int)op.mod(6, 3));
-            int mode = (int)op.mod(7, 3);
-            if (mode == 1) Deliver(idx, true);
-            else if (mode == 2) {
-                BlockValidationState st;
-                bool ok = node->ProcessHeaders({static_cast<const CBlockHeader&>(*ref->blocks[idx].block)}, st);
-                header_given[idx] = 1;
-                ctx.evf("header #%d -> %d %s", idx, ok, st.GetRejectReason().c_str());
-            }
-            break;
+    int n = (int)ref->blocks.size();
+    auto sel = [&](size_t sel_arg, size_t idx_arg) {
+        if (op.arg(sel_arg)) return (int)op.mod(idx_arg, n);
+        return n - 1 - (int)op.mod(idx_arg, std::min(n, 8));
+    };
+    uint256 tip_before = node->TipHash();
+    int tipidx_before = TipIdx();
+    switch (op.kind) {
+    case OP_MINE: {
+        int parent = sel(0, 1);
+        if (!op.arg(0)) {
+            // "recent": prefer the node's current tip most of the time so that chains grow
+            int k = (int)op.mod(1, 4);
+            if (k <= 1 && tipidx_before >= 0) parent = tipidx_before;
         }
-        case OP_DELIVER: {
-            int idx = sel(0, 1);
-            if (idx == 0) break;
-            int times = (int)std::clamp<int64_t>(op.arg(3), 1, 3);
-            for (int k = 0; k < times; ++k) Deliver(idx, op.arg(2) != 0);
-            if (times > 1) ctx.probe("duplicate_delivery");
-            break;
-        }
-        case OP_HEADER: {
-            int idx = sel(0, 1);
-            if (idx == 0) break;
+        int idx = MineOn(parent, (int)std::clamp<int64_t>(op.arg(2), 0, 12), (uint64_t)op.arg(3), (int)op.mod(4, D_NDEFECTS), (int)op.mod(5, B_NBOUNDARY), (int)op.mod(6, 3));
+        int mode = (int)op.mod(7, 3);
+        if (mode == 1) Deliver(idx, true);
+        else if (mode == 2) {
             BlockValidationState st;
             bool ok = node->ProcessHeaders({static_cast<const CBlockHeader&>(*ref->blocks[idx].block)}, st);
             header_given[idx] = 1;
             ctx.evf("header #%d -> %d %s", idx, ok, st.GetRejectReason().c_str());
-            break;
         }
-        case OP_INVALIDATE: {
-            int idx = sel(0, 1);
-            if (idx == 0) break;
-            // keep manual invalidations an antichain (no nesting), see DESIGN C08 guards
-            bool related = false;
-            for (int m : manual_invalid)
-                if (ref->IsAncestor(m, idx) || ref->IsAncestor(idx, m)) related = true;
-            if (related) break;
-            CBlockIndex* pi = WITH_LOCK(cs_main, return node->cm().m_blockman.LookupBlockIndex(ref->blocks[idx].hash));
-            if (!pi) break;
-            BlockValidationState st;
-            bool ok = node->cs().InvalidateBlock(st, pi);
-            BlockValidationState st2;
-            node->cs().ActivateBestChain(st2);
-            node->DrainSignals();
-            manual_invalid.insert(idx);
-            ctx.probe("invalidateblock");
-            ctx.evf("invalidate #%d -> %d tip=%s h=%d", idx, ok, Hx(node->TipHash()).c_str(), node->Height());
-            int t = TipIdx();
-            if (t >= 0 && ref->IsAncestor(idx, t)) ctx.failf("tip-still-on-invalidated-block", "after invalidateblock(#%d) the tip #%d still descends from it", idx, t);
-            break;
-        }
-        case OP_RECONSIDER: {
-            if (manual_invalid.empty()) break;
-            auto it = manual_invalid.begin();
-            std::advance(it, op.mod(0, manual_invalid.size()));
-            int idx = *it;
-            CBlockIndex* pi = WITH_LOCK(cs_main, return node->cm().m_blockman.LookupBlockIndex(ref->blocks[idx].hash));
-            if (!pi) break;
-            {
-                LOCK(cs_main);
-                node->cs().ResetBlockFailureFlags(pi);
-                node->cm().RecalculateBestHeader();
-            }
-            BlockValidationState st;
-            node->cs().ActivateBestChain(st);
-            node->DrainSignals();
-            manual_invalid.erase(idx);
-            ctx.probe("reconsiderblock");
-            ctx.evf("reconsider #%d tip=%s h=%d", idx, Hx(node->TipHash()).c_str(), node->Height());
-            break;
-        }
-        case OP_RESTART: {
-            if (!on_disk) break;
-            node->Stop(/*clean=*/true);
-            if (!node->Start()) ctx.failf("restart-failed", "clean restart failed: %s", node->last_error.c_str());
-            ctx.probe("clean_restart");
-            ctx.evf("restart tip=%s h=%d", Hx(node->TipHash()).c_str(), node->Height());
-            if (node->TipHash() != tip_before) {
-                // a clean restart may legitimately move to another equal-or-better tip only if CheckAll agrees; but it must not lose work
-                int t = TipIdx();
-                if (t >= 0 && tipidx_before >= 0 && ref->Work(t) < ref->Work(tipidx_before)) ctx.failf("restart-lost-work", "tip work went from %d to %d across a clean restart", ref->Work(tipidx_before), ref->Work(t));
-            }
-            break;
-        }
-        case OP_FLUSH: {
-            LOCK(cs_main);
-            BlockValidationState st;
-            int mode = (int)op.mod(0, 4);
-            if (mode == 0) node->cs().ForceFlushStateToDisk(true);
-            else if (mode == 1) node->cs().ForceFlushStateToDisk(false);
-            else if (mode == 2) node->cs().FlushStateToDisk(st, FlushStateMode::PERIODIC);
-            else node->cs().FlushStateToDisk(st, FlushStateMode::IF_NEEDED);
-            ctx.evf("flush %d", mode);
-            break;
-        }
-        case OP_CLOCK:
-            now += std::clamp<int64_t>(op.arg(0), 1, 100000);
-            SetMockTime(std::chrono::seconds{now});
-            ctx.evf("clock+%ld", (long)op.arg(0));
-            break;
-        case OP_CHECK_UTXO:
-            CheckUtxo("explicit check");
-            break;
-        }
-        if (node->Fatal()) ctx.failf("node-fatal-error", "%s", node->notifications->fatal_errors.empty() ? node->notifications->flush_errors[0].c_str() : node->notifications->fatal_errors[0].c_str());
-        CheckAll(DescribeChainOp(op).c_str());
-        uint256 tip_after = node->TipHash();
-        if (tip_after != tip_before) {
-            int ta = TipIdx();
-            if (ta >= 0 && tipidx_before >= 0 && !ref->IsAncestor(tipidx_before, ta)) {
-                ++reorgs;
-                ctx.probe("reorg");
-                int fork = ref->ForkPoint(tipidx_before, ta);
-                if (ref->blocks[tipidx_before].height - ref->blocks[fork].height >= 3) ctx.probe("reorg_depth_ge_3");
-            }
-            if (cfg.check_utxo_equal) CheckUtxo("after tip change");
-            ctx.nontrivial = true;
-        } else if (cfg.check_reject_leaves_state && op.kind == OP_DELIVER) {
-            if (cfg.check_utxo_equal && (op.arg(1) & 3) == 0) CheckUtxo("after delivery without tip change");
-        }
+        break;
     }
+    case OP_DELIVER: {
+        int idx = sel(0, 1);
+        if (idx == 0) break;
+        int times = (int)std::clamp<int64_t>(op.arg(3), 1, 3);
+        for (int k = 0; k < times; ++k) Deliver(idx, op.arg(2) != 0);
+        if (times > 1) ctx.probe("duplicate_delivery");
+        break;
+    }
+    case OP_HEADER: {
+        int idx = sel(0, 1);
+        if (idx == 0) break;
+        BlockValidationState st;
+        bool ok = node->ProcessHeaders({static_cast<const CBlockHeader&>(*ref->blocks[idx].block)}, st);
+        header_given[idx] = 1;
+        ctx.evf("header #%d -> %d %s", idx, ok, st.GetRejectReason().c_str());
+        break;
+    }
+    case OP_INVALIDATE: {
+        int idx = sel(0, 1);
+        if (idx == 0) break;
+        // keep manual invalidations an antichain (no nesting), see DESIGN C08 guards
+        bool related = false;
+        for (int m : manual_invalid)
+            if (ref->IsAncestor(m, idx) || ref->IsAncestor(idx, m)) related = true;
+        if (related) break;
+        CBlockIndex* pi = WITH_LOCK(cs_main, return node->cm().m_blockman.LookupBlockIndex(ref->blocks[idx].hash));
+        if (!pi) break;
+        BlockValidationState st;
+        bool ok = node->cs().InvalidateBlock(st, pi);
+        BlockValidationState st2;
+        node->cs().ActivateBestChain(st2);
+        node->DrainSignals();
+        manual_invalid.insert(idx);
+        ctx.probe("invalidateblock");
+        ctx.evf("invalidate #%d -> %d tip=%s h=%d", idx, ok, Hx(node->TipHash()).c_str(), node->Height());
+        int t = TipIdx();
+        if (t >= 0 && ref->IsAncestor(idx, t)) ctx.failf("tip-still-on-invalidated-block", "after invalidateblock(#%d) the tip #%d still descends from it", idx, t);
+        break;
+    }
+    case OP_RECONSIDER: {
+        if (manual_invalid.empty()) break;
+        auto it = manual_invalid.begin();
+        std::advance(it, op.mod(0, manual_invalid.size()));
+        int idx = *it;
+        CBlockIndex* pi = WITH_LOCK(cs_main, return node->cm().m_blockman.LookupBlockIndex(ref->blocks[idx].hash));
+        if (!pi) break;
+        {
+            LOCK(cs_main);
+            node->cs().ResetBlockFailureFlags(pi);
+            node->cm().RecalculateBestHeader();
+        }
+        BlockValidationState st;
+        node->cs().ActivateBestChain(st);
+        node->DrainSignals();
+        manual_invalid.erase(idx);
+        ctx.probe("reconsiderblock");
+        ctx.evf("reconsider #%d tip=%s h=%d", idx, Hx(node->TipHash()).c_str(), node->Height());
+        break;
+    }
+    case OP_RESTART: {
+        if (!on_disk) break;
+        node->Stop(/*clean=*/true);
+        if (on_full_flush) on_full_flush(0);
+        if (!node->Start()) ctx.failf("restart-failed", "clean restart failed: %s", node->last_error.c_str());
+        if (on_node_started) on_node_started();
+        ctx.probe("clean_restart");
+        ctx.evf("restart tip=%s h=%d", Hx(node->TipHash()).c_str(), node->Height());
+        if (node->TipHash() != tip_before) {
+            // a clean restart may legitimately move to another equal-or-better tip only if CheckAll agrees; but it must not lose work
+            int t = TipIdx();
+            if (t >= 0 && tipidx_before >= 0 && ref->Work(t) < ref->Work(tipidx_before)) ctx.failf("restart-lost-work", "tip work went from %d to %d across a clean restart", ref->Work(tipidx_before), ref->Work(t));
+        }
+        break;
+    }
+    case OP_FLUSH: {
+        LOCK(cs_main);
+        BlockValidationState st;
+        int mode = (int)op.mod(0, 4);
+        if (mode == 0) node->cs().ForceFlushStateToDisk(true);
+        else if (mode == 1) node->cs().ForceFlushStateToDisk(false);
+        else if (mode == 2) node->cs().FlushStateToDisk(st, FlushStateMode::PERIODIC);
+        else node->cs().FlushStateToDisk(st, FlushStateMode::IF_NEEDED);
+        if (mode <= 1 && on_full_flush) on_full_flush(mode);
+        ctx.evf("flush %d", mode);
+        break;
+    }
+    case OP_CLOCK:
+        now += std::clamp<int64_t>(op.arg(0), 1, 100000);
+        SetMockTime(std::chrono::seconds{now});
+        ctx.evf("clock+%ld", (long)op.arg(0));
+        break;
+    case OP_CHECK_UTXO:
+        CheckUtxo("explicit check");
+        break;
+    case OP_REORG: {
+        // build a competing branch from an ancestor of the tip that overtakes it, then deliver it (in order, reversed, or tip-first twice)
+        if (tipidx_before < 0) break;
+        int depth = (int)std::clamp<int64_t>(op.arg(0), 1, 8);
+        int fork = ref->Ancestor(tipidx_before, std::max(0, ref->blocks[tipidx_before].height - depth));
+        int len = ref->blocks[tipidx_before].height - ref->blocks[fork].height + (int)std::clamp<int64_t>(op.arg(1), 1, 3);
+        std::vector<int> branch;
+        int parent = fork;
+        Rng r(mix64((uint64_t)op.arg(3), 0x72656f));
+        for (int i = 0; i < len; ++i) {
+            parent = MineOn(parent, (int)std::clamp<int64_t>(op.arg(2), 0, 8), r.next(), D_NONE, B_NONE, 0);
+            branch.push_back(parent);
+        }
+        int order = (int)op.mod(4, 3);
+        if (order == 1) std::reverse(branch.begin(), branch.end());
+        for (int b : branch) Deliver(b, true);
+        if (order == 1) { std::reverse(branch.begin(), branch.end()); for (int b : branch) Deliver(b, true); }
+        ctx.probe("reorg_op");
+        break;
+    }
+    }
+    if (node->Fatal()) ctx.failf("node-fatal-error", "%s", node->notifications->fatal_errors.empty() ? node->notifications->flush_errors[0].c_str() : node->notifications->fatal_errors[0].c_str());
+    CheckAll(DescribeChainOp(op).c_str());
+    uint256 tip_after = node->TipHash();
+    if (tip_after != tip_before) {
+        int ta = TipIdx();
+        if (ta >= 0 && tipidx_before >= 0 && !ref->IsAncestor(tipidx_before, ta)) {
+            ++reorgs;
+            ctx.probe("reorg");
+            int fork = ref->ForkPoint(tipidx_before, ta);
+            if (ref->blocks[tipidx_before].height - ref->blocks[fork].height >= 3) ctx.probe("reorg_depth_ge_3");
+        }
+        if (cfg.check_utxo_equal) CheckUtxo("after tip change");
+        ctx.nontrivial = true;
+    } else if (cfg.check_reject_leaves_state && op.kind == OP_DELIVER) {
+        if (cfg.check_utxo_equal && (op.arg(1) & 3) == 0) CheckUtxo("after delivery without tip change");
+    }
+}
+
+void ChainSim::Finish()
+{
     if (cfg.check_utxo_equal || cfg.check_supply) CheckUtxo("end of run");
     ctx.sim_ms = (uint64_t)(now - start_time) * 1000;
     node->Stop(true);
+}
+
+void ChainSim::Run()
+{
+    Setup();
+    for (const Op& op : ctx.plan.ops) ExecOp(op);
+    Finish();
 }
 
 } // namespace nodesim
